@@ -215,6 +215,47 @@ def run_wbl(ctx, c):
     ctx.sample(c)
 
 
+def run_wbl_big(ctx, c):
+    """wide blocks of 128 and more 16-octet blocks (the round number needs more than one octet from 2048 octets on): WBL, KWP, SDE sectors"""
+    x = ctx.x
+    key = mkkey(c)
+    kl = len(key)
+    n = c["n"]
+    msg = expand(c["seed"], n)
+    K = x.buf(key)
+    S = x.out(x.call("beltWBL_keep", ret="z"))
+    x.call("beltWBLStart", S, K, kl, ret="v")
+    b = x.buf(msg); x.call("beltWBLStepE", b, n, S, ret="v")
+    e = R.wbl_encr(key, msg)
+    chk("beltWBLStepE(n=%d)" % n, b.read(), e)
+    x.call("beltWBLStepD", b, n, S, ret="v"); chk("beltWBLStepD(E(x)) (n=%d)" % n, b.read(), msg)
+    hdr = expand(c["seed"] + "h", 16) if c["hdr"] else None
+    d = x.out(n + 16)
+    if x.call("beltKWPWrap", d, x.buf(msg), n, x.buf(hdr) if hdr else None, K, kl): raise Fail("KWPWrap failed")
+    tok = d.read()
+    chk("beltKWPWrap(n=%d)" % n, tok, R.kwp_wrap(key, hdr, msg))
+    o = x.out(n)
+    r = x.call("beltKWPUnwrap", o, x.buf(tok), n + 16, x.buf(hdr) if hdr else None, K, kl)
+    if r or o.read() != msg:
+        raise Fail("beltKWPUnwrap does not invert Wrap for a %d-octet key (err %d)" % (n, r))
+    if n % 16 == 0:
+        iv = expand(c["seed"] + "iv", 16)
+        d = x.out(n)
+        if x.call("beltSDEEncr", d, x.buf(msg), n, K, kl, x.buf(iv)): raise Fail("SDEEncr failed")
+        chk("beltSDEEncr(sector of %d octets)" % n, d.read(), R.sde_encr(key, iv, msg))
+        d2 = x.out(n)
+        if x.call("beltSDEDecr", d2, d, n, K, kl, x.buf(iv)): raise Fail("SDEDecr failed")
+        chk("beltSDEDecr(SDEEncr(x)) (%d octets)" % n, d2.read(), msg)
+    ctx.cls("wblbig_%s" % ("opt" if n % 16 == 0 else "gen"), "ge2048" if n >= 2048 else "lt2048")
+    ctx.nontrivial("wbl_big", kl, n)
+    ctx.sample(c)
+
+
+S_WBL_BIG = st.fixed_dictionaries({
+    "kl": st.sampled_from([16, 24, 32]), "kc": st.sampled_from(["rnd", "rnd", "zero", "ff"]), "seed": st.binary(min_size=1, max_size=4).map(bytes.hex),
+    "n": st.sampled_from([1024, 2031, 2032, 2033, 2047, 2048, 2049, 2064, 3000, 4080, 4096, 4097, 4112]), "hdr": st.booleans()})
+
+
 S_WBL = st.fixed_dictionaries({
     "kl": st.sampled_from([16, 24, 32]), "kc": st.sampled_from(["rnd", "rnd", "zero", "ff"]), "seed": st.binary(min_size=1, max_size=4).map(bytes.hex),
     "n": st.one_of(st.sampled_from([32, 33, 47, 48, 49, 63, 64, 65, 79, 80, 81, 95, 96, 97, 112, 128, 144, 160, 176, 192, 208]), st.integers(32, 208)),
@@ -380,10 +421,20 @@ def replay_override(ctx, test, case):
 
 
 def tests(tier):
+    # The step-wise (Start / Step / Get) editions of the same mechanisms with generated fragmentations: their oracle is the one-shot function
+    # (props/c10.py), whose oracle is the model here, so a defect that only shows with a particular fragmentation is a C01 failure as well.
+    from props import c10
+    chunked = [Test("chunked_" + t.name, t.strategy, t.run, {k: max(200, v // 4) for k, v in t.n.items()}, CFG)
+               for t in c10.tests(tier) if t.name in ("cipher", "mac", "aead", "misc")]
+    return own_tests(tier) + chunked
+
+
+def own_tests(tier):
     return [
         Test("modes", S_MODES, run_modes, {"quick": 4000, "thorough": 80000}, CFG),
         Test("aead", S_AEAD, run_aead, {"quick": 3000, "thorough": 60000}, CFG),
         Test("wbl_kwp", S_WBL, run_wbl, {"quick": 3000, "thorough": 60000}, CFG),
+        Test("wbl_big", S_WBL_BIG, run_wbl_big, {"quick": 48, "thorough": 1200}, CFG),
         Test("prim", S_PRIM, run_prim, {"quick": 1500, "thorough": 30000}, CFG),
         Test("fmt", S_FMT, run_fmt, {"quick": 1500, "thorough": 30000}, CFG),
         Sweep("fmt_table", sweep_fmt_table, 16, CFG),
